@@ -58,6 +58,37 @@ REGISTRY = {
         engine="E7 structural + E3 flow",
         ref="DESIGN.md §4 C10",
     ),
+    "C11": dict(
+        text="Flow-sensitive origin/alias + in-place-effect analysis (CFG dataflow, bottom-up function summaries to a fixed "
+        "point) of the 62 functions of the functional data / peak / grouping / evaluation / tracking-helper API and "
+        "everything they call: no in-place sink (indexed store, op=, *_() method, out=, container mutator) is reachable "
+        "by a value whose origin is a parameter, through any chain of views, packing, iteration or callees - a statement "
+        "over all inputs and call sequences because it is an effect fact. In the four Dataset.__getitem__ the cached "
+        "sample is copied before use and no value with origin `cache` reaches a sink; _fill_cache stores copies keyed by "
+        "list position; __getitem__/__len__ of all eight dataset classes write no self state; __len__ is the length of "
+        "the index list built under the is_empty filter.",
+        note="Trusted: ast, networkx, the view/copy classification table of torch/numpy operations (unknown methods on "
+        "tracked values are treated as aliases), A-sio (Instance.numpy() returns a copy). Out of scope by the property's "
+        "own wording: attribute stores on label objects (user-instance filtering). Not decided: bit-identity through "
+        "the .npz path.",
+        technique="alias/effect dataflow with function summaries + self-state dataflow + structural length rules",
+        engine="E1 alias/effects",
+        ref="DESIGN.md §4 C11",
+    ),
+    "C15": dict(
+        text="Decided: the OKS value depends on the missing-prediction mask through a +inf store that dominates the "
+        "exponential and on the missing-ground-truth mask through a zero store between exponential and sum, normalised by "
+        "the visible count (CFG dominance + def-use); a sign/interval abstract evaluation shows the exponent non-positive "
+        "and the similarity in [0,1] under stddev>0, scale>=0; the evaluation/tracking helpers mutate no argument (alias "
+        "engine); in match_instances every appended pair is preceded on its path by a pop of the matched ground truth, "
+        "predictions are a permutation visited once, false negatives are the remaining pool; greedy_matching removes all "
+        "edges of the chosen row or column, iterating backwards.",
+        note="Trusted: ast, networkx, numpy facts (exp(-inf)=0, argsort is a permutation, list.pop). Not decided: OKS=1 "
+        "for identical poses, monotonicity, translation invariance, reorder invariance (numerical).",
+        technique="CFG dominance + def-use slices + sign/interval abstract evaluation + alias/effects",
+        engine="E3 flow + E4c sign + E1 alias",
+        ref="DESIGN.md §4 C15",
+    ),
     "C12": dict(
         text="Index-bookkeeping clauses decided on the CFG/AST for every batch composition: the per-frame lists feeding the "
         "batch dict are appended exactly once per completed iteration after the end-of-stream test, from the frame's "
